@@ -203,7 +203,15 @@ def check_aas_example(file_path: str, state_manager: ComplianceToolStateManager,
 
     state_manager.add_step('Check if data is equal to example data')
     example_data = create_example_aas_binding()
-    checker.check_object_store(obj_store, example_data)
+    try:
+        checker.check_object_store(obj_store, example_data)
+    except NotImplementedError as error:
+        # AASDataChecker cannot compare a SubmodelElementList with order_relevant=False; the example has none
+        state_manager.set_step_status(Status.FAILED)
+        logger.error(error)
+        state_manager.add_step('Check if core properties are equal')
+        state_manager.set_step_status(Status.NOT_EXECUTED)
+        return
     state_manager.add_log_records_from_data_checker(checker)
 
     if state_manager.status in (Status.FAILED, Status.NOT_EXECUTED):
@@ -311,7 +319,7 @@ def check_aasx_files_equivalence(file_path_1: str, file_path_2: str, state_manag
     try:
         state_manager.add_step('Check if data in files are equal')
         checker.check_object_store(obj_store_1, obj_store_2)
-    except (KeyError, AssertionError) as error:
+    except (KeyError, AssertionError, NotImplementedError) as error:
         state_manager.set_step_status(Status.FAILED)
         logger.error(error)
         state_manager.add_step('Check if core properties are equal')
